@@ -100,6 +100,7 @@ PROP = [  # (subject fragment, property, also)
  ("integer-literal predicate fast path compares DOUBLE/NUMERIC/FLOAT/REAL columns as f64", "C03", ""),
  ("row-path SUM/AVG accumulate FLOAT/REAL/DOUBLE values in f64", "C03", ""),
  ("ON UPDATE actions through several foreign keys of one child row are all applied", "C12", ""),
+ ("rebuilding a disk-backed index sizes its pages from the stored keys and fills leaves by size", "C16", "C17"),
 ]
 def main():
     root = sys.argv[1] if len(sys.argv) > 1 else "/verif"
